@@ -23,7 +23,11 @@ for n in names:
     viol = [l for l in out.splitlines() if l.startswith("VIOLATION")]
     obl = [l.strip().split("failed obligation: ")[1] for l in out.splitlines() if "failed obligation:" in l]
     confirmed = any(not v.endswith("no-failing-input-found") for v in viol)
-    verdict = "caught" if code == 1 and viol else ("UNDECIDED(exit %d)" % code if code in (2, 3) else "MISSED")
+    harmless = meta.get("kind", "").startswith("harmless")
+    if harmless:
+        verdict = "quiet (correct)" if code == 0 else ("FALSE ALARM" if code == 1 else "UNDECIDED(exit %d)" % code)
+    else:
+        verdict = "caught" if code == 1 and viol else ("UNDECIDED(exit %d)" % code if code in (2, 3) else "MISSED")
     meta["caught_by"] = {"check": "./check %s --tier quick" % prop, "exit": code, "verdict": verdict,
                          "failed_obligations": obl[:6], "counterexample_replayed_natively": confirmed,
                          "seconds": round(time.time() - t0, 1), "repo_head": subprocess.run("git -C /repo rev-parse --short HEAD", shell=True, capture_output=True, text=True).stdout.strip()}
